@@ -121,6 +121,10 @@ class MindsDBParser(Parser):
         if isinstance(model, str):
             # convert to identifier
             model = Identifier(model)
+        elif model is not None and not isinstance(model, Identifier):
+            raise ParsingException(f'Wrong model name: {model}')
+        if storage is not None and not isinstance(storage, Identifier):
+            raise ParsingException(f'Wrong storage name: {storage}')
 
         if_not_exists = p.if_not_exists_or_empty
 
@@ -189,6 +193,9 @@ class MindsDBParser(Parser):
         database = Identifier(params.pop('database'))
         model_param = params.pop('model', None)
         agent_param = params.pop('agent', None)
+        for name, value in (('model', model_param), ('agent', agent_param)):
+            if value is not None and not (isinstance(value, str) and value):
+                raise ParsingException(f"CREATE CHATBOT: parameter '{name}' must be a non-empty string")
         model = Identifier(
             model_param) if model_param is not None else None
         agent = Identifier(
